@@ -1419,7 +1419,8 @@ class Engine:
                         lb = b_
                         break
             if sym > lb or n > self.concrete_loop_bound:
-                self.oblige(st, 'bound', None, 'loop:%s:%s' % (fr.fn.name[-24:], label), ins,
+                # 'spin': the loop went round on concrete values only (nothing symbolic decided in between)
+                self.oblige(st, 'bound', None, '%s:%s:%s' % ('loop' if sym > lb else 'spin', fr.fn.name[-24:], label), ins,
                             'loop bound (%d symbolic / %d total iterations) exceeded at %s' % (
                                 lb, self.concrete_loop_bound, self.loc(ins)))
                 st.status = 'bound'
